@@ -556,6 +556,18 @@ func runC20(c *Ctx) {
 				if !okv {
 					continue
 				}
+				// a clamp belongs to a conversion: some other return yields the compared value itself
+				isConv := false
+				for _, rb := range fn.Blocks {
+					if r2, ok := rb.Instrs[len(rb.Instrs)-1].(*ssa.Return); ok && r2 != ret {
+						if _, isC := stripConv(r2.Results[0]).(*ssa.Const); !isC && core.DependsOn(r2.Results[0], func(x ssa.Value) bool { return x == bo.X }, false) {
+							isConv = true
+						}
+					}
+				}
+				if !isConv {
+					continue
+				}
 				upper := bo.Op == token.GTR || bo.Op == token.GEQ
 				if upper && cv == 0 || !upper && cv != 0 && cv != lo {
 					// `x > K -> return 0`-style special cases are not clamps
